@@ -362,7 +362,7 @@ def eval_txmgr(f, fn, state, old=False, commit_ok=True, closure_ok=True):
     heap = {"self": E.struct(f, "store::fs::Store", db=E.Tok("db"), transaction=st, open_replicas=E.Tok("open"), pubkeys=E.Tok("pk"))}
     args = [E.href("self")] + ([E.Tok("f")] if fn == "modify" else [])
     try:
-        ret, it = E.run_it(f, "store::fs::Store::" + fn, args, heap, oracle)
+        ret, it = E.run_it(f, fn if "::" in fn else "store::fs::Store::" + fn, args, heap, oracle)
         fin = E.describe(E.field(f, it.heap["self"], "store::fs::Store", "transaction"), f)
         r = E.describe(it.resolve(ret), f)
         return ("PANIC" if (ret is not None and ret[0] == "diverge") else r), fin, log
@@ -415,6 +415,15 @@ def r4(ctx):
         ctx.check(ok, "C06.R4", b.path, "tx[%s%s%s]" % (state, ",older-than-MAX_COMMIT_DELAY" if old else "", ",commit-fails" if not cok else ""),
                   "returns %s, leaves %s open, redb calls %s; spec: %s, %s, %s (an open write transaction is committed - never dropped - before it is replaced; a failed commit is reported; "
                   "where a commit point may fall inside an operation is decided by R1)" % (got, fin, log, wres, wfin, wlog), b.sp)
+    # the destructor: a store that goes out of scope commits what it was acknowledged for ("the list survives reopening the
+    # store", "flushed data survives"): an open write transaction is committed, not dropped
+    DROP = "<store::fs::Store as std::ops::Drop>::drop"
+    db_ = f.body(DROP)
+    ctx.touch(db_)
+    for state, wlog in (("None", []), ("Read", []), ("Write", ["commit(wtx)"])):
+        got, fin, log = eval_txmgr(f, DROP, state, False, True)
+        ctx.check(not got.startswith("UNSUPPORTED") and got != "PANIC" and log == wlog, "C06.R4", DROP, "tx[%s,store-dropped]" % state,
+                  "redb calls %s, leaves %s; spec: %s (an open write transaction is committed before the store goes away)" % (log, fin, wlog), db_.sp)
     # a failing transaction body is reported, and the shared transaction stays open: what earlier operations wrote into it
     # is neither committed on the spot nor rolled back
     mb = f.body("store::fs::Store::modify")
@@ -422,7 +431,7 @@ def r4(ctx):
         got, fin, log = eval_txmgr(f, "modify", state, False, True, closure_ok=False)
         ctx.check(got.startswith("Err(") and fin == want_fin and log == want_log, "C06.R4", mb.path, "tx[%s,transaction-body-fails]" % state,
                   "returns %s, leaves %s open, redb calls %s; spec: Err, %s, %s (the error of one operation must not drop the writes of earlier, acknowledged operations)" % (got, fin, log, want_fin, want_log), mb.sp)
-    ctx.floor("C06.R4", 23)
+    ctx.floor("C06.R4", 26)
 
 
 def share_failing_body(ctx, rule, floor=2):
@@ -432,7 +441,7 @@ def share_failing_body(ctx, rule, floor=2):
     sub = type(ctx)(ctx.prop, ctx.tier, ctx.facts, ctx.cfg)
     r4(sub)
     for o in sub.obligations:
-        if "transaction-body-fails" not in o["key"]:
+        if "transaction-body-fails" not in o["key"] and "store-dropped" not in o["key"]:
             continue
         o = dict(o)
         o["key"] = o["key"].replace("C06.R4", rule)
